@@ -10,12 +10,21 @@
 // Nothing of the library is copied here.  Exact numbers are printed as C99 hex floats.
 //
 // stdin (tokens separated by white space; numbers in any strtod syntax):
-//   SPE id N D d global k nupd maxiter tol srand shseed useed umode nbm log   + N*D numbers (sample major)
+//   every data block is a POOL of samples plus the RANGE handed to embed():
+//       P  r_0 .. r_{N-1}  name_0 .. name_{P-1}  + P*D numbers (pool column major)
+//     name_p is the external sample id of pool column p (distinct ints), r_i the external id at position i of
+//     the [begin,end) range given to the library (sub-range, permuted, offset / sparse ids, repeated ids);
+//     the callbacks receive external ids and look the pool column up (an id that is not in the pool throws).
+//     "Designated sample i" = pool column of r_i: Y0, R, NB, PROJ below are all per POSITION in the range,
+//     the P lines carry the external ids the distance callback was called with.
+//   SPE id N D d global k nupd maxiter tol srand shseed useed umode nbm log   + pool block
 //       umode 0: u = 20-bit dyadic from mt19937_64(useed); 1: u = 1 - 2^-20; 2: u = 0; 3: u = m/8 from mt19937_64(useed)
 //       nbm 0 Brute, 1 VpTree, 2 CoverTree ; log 0 none, 1 shuffled values + pairs, 2 + from, u, Y0, R
-//   RP  id N D d gseed gmode   + N*D numbers      gmode 0: g = small dyadic from mt19937_64(gseed), 1: N(0,1)
-//   FA  id N D d maxiter eps srand  + N*D numbers
+//   RP  id N D d gseed gmode   + pool block       gmode 0: g = small dyadic from mt19937_64(gseed), 1: N(0,1)
+//   FA  id N D d maxiter eps srand  + pool block
 //   RPM id D d srand reps        moments of gaussian_projection_matrix (meaningful with -DC19_PLAIN)
+//   RPP id D d srand             (-DC19_PLAIN) the std::rand answers gaussian_projection_matrix(D, d) consumes
+//                                (re-drawn after the same srand) and the matrix itself: replay of the polar method
 // stdout: "C id" (flushed before the case runs), result lines, "END id".
 #include <algorithm>
 #include <cmath>
@@ -25,7 +34,9 @@
 #include <iostream>
 #include <random>
 #include <sstream>
+#include <stdexcept>
 #include <string>
+#include <unordered_map>
 #include <vector>
 
 static double c19_uniform();
@@ -130,9 +141,32 @@ static double c19_gaussian()
     return g;
 }
 
+// the data set: pool columns with external names; the library only ever sees external ids
+struct Pool
+{
+    DenseMatrix X;            // D x P
+    std::vector<int> names;   // external id of pool column p
+    std::vector<int> range;   // external ids handed to embed(), in order
+    std::unordered_map<int, int> col;
+    int col_of(int id) const
+    {
+        auto it = col.find(id);
+        if (it == col.end())
+            throw std::out_of_range("C19 callback asked for sample id " + std::to_string(id) + " which is not in the data set");
+        return it->second;
+    }
+    DenseMatrix designated() const
+    {
+        DenseMatrix S(X.rows(), (int)range.size());
+        for (size_t i = 0; i < range.size(); ++i)
+            S.col(i) = X.col(col_of(range[i]));
+        return S;
+    }
+};
+
 struct log_distance
 {
-    const DenseMatrix* X;
+    const Pool* pool;
     ScalarType distance(int a, int b) const
     {
         if (g_logging)
@@ -145,42 +179,62 @@ struct log_distance
                 g_iters.back().pairs.push_back(b);
             }
         }
-        return (X->col(a) - X->col(b)).norm();
+        return (pool->X.col(pool->col_of(a)) - pool->X.col(pool->col_of(b))).norm();
     }
 };
 struct plain_kernel
 {
-    const DenseMatrix* X;
+    const Pool* pool;
     ScalarType kernel(int a, int b) const
     {
-        return X->col(a).dot(X->col(b));
+        return pool->X.col(pool->col_of(a)).dot(pool->X.col(pool->col_of(b)));
     }
 };
 struct plain_features
 {
-    const DenseMatrix* X;
+    const Pool* pool;
     IndexType dimension() const
     {
-        return static_cast<IndexType>(X->rows());
+        return static_cast<IndexType>(pool->X.rows());
     }
     void vector(int i, DenseVector& v) const
     {
-        v = X->col(i);
+        v = pool->X.col(pool->col_of(i));
     }
 };
 
 // ------------------------------------------------------------------------------------------ io
-static bool read_matrix(std::istream& in, int N, int D, DenseMatrix& X)
+static bool read_pool(std::istream& in, int N, int D, Pool& pool)
 {
-    X.resize(D, N);
+    int P;
+    if (!(in >> P) || P < 0 || P > 100000)
+        return false;
+    pool.range.resize(N);
+    pool.names.resize(P);
+    for (int i = 0; i < N; ++i)
+        if (!(in >> pool.range[i]))
+            return false;
+    pool.col.clear();
+    for (int p = 0; p < P; ++p)
+    {
+        if (!(in >> pool.names[p]))
+            return false;
+        pool.col[pool.names[p]] = p;
+    }
+    if ((int)pool.col.size() != P)
+        return false;
+    pool.X.resize(D, P);
     std::string tok;
-    for (int n = 0; n < N; ++n)
+    for (int n = 0; n < P; ++n)
         for (int c = 0; c < D; ++c)
         {
             if (!(in >> tok))
                 return false;
-            X(c, n) = std::strtod(tok.c_str(), nullptr);
+            pool.X(c, n) = std::strtod(tok.c_str(), nullptr);
         }
+    for (int i = 0; i < N; ++i)
+        if (!pool.col.count(pool.range[i]))
+            return false;
     return true;
 }
 
@@ -222,18 +276,17 @@ static void run_spe(std::istream& in, const std::string& id)
     std::string tol_s;
     in >> N >> D >> d >> global >> k >> nupd >> maxiter >> tol_s >> srand_seed >> shseed >> useed >> umode >> nbm >> log;
     double tol = std::strtod(tol_s.c_str(), nullptr);
-    DenseMatrix X;
-    if (!in || N < 0 || D < 0 || N > 100000 || D > 10000 || !read_matrix(in, N, D, X))
+    Pool pool;
+    if (!in || N < 0 || D < 0 || N > 100000 || D > 10000 || !read_pool(in, N, D, pool))
     {
         std::printf("BADINPUT\nEND %s\n", id.c_str());
         return;
     }
-    std::vector<int> data(N);
-    for (int i = 0; i < N; ++i)
-        data[i] = i;
-    log_distance dcb{&X};
-    plain_kernel kcb{&X};
-    plain_features fcb{&X};
+    std::vector<int> data(pool.range);   // the [begin,end) range handed to the library: external sample ids
+    const DenseMatrix X = pool.designated(); // column i = the sample designated by position i of the range
+    log_distance dcb{&pool};
+    plain_kernel kcb{&pool};
+    plain_features fcb{&pool};
 
     g_iters.clear();
     g_pre_us.clear();
@@ -353,18 +406,17 @@ static void run_rp(std::istream& in, const std::string& id)
     int N, D, d, gmode;
     unsigned long long gseed;
     in >> N >> D >> d >> gseed >> gmode;
-    DenseMatrix X;
-    if (!in || N < 0 || D < 0 || N > 100000 || D > 10000 || !read_matrix(in, N, D, X))
+    Pool pool;
+    if (!in || N < 0 || D < 0 || N > 100000 || D > 10000 || !read_pool(in, N, D, pool))
     {
         std::printf("BADINPUT\nEND %s\n", id.c_str());
         return;
     }
-    std::vector<int> data(N);
-    for (int i = 0; i < N; ++i)
-        data[i] = i;
-    log_distance dcb{&X};
-    plain_kernel kcb{&X};
-    plain_features fcb{&X};
+    std::vector<int> data(pool.range);   // the [begin,end) range handed to the library: external sample ids
+    const DenseMatrix X = pool.designated(); // column i = the sample designated by position i of the range
+    log_distance dcb{&pool};
+    plain_kernel kcb{&pool};
+    plain_features fcb{&pool};
     g_gauss.clear();
     g_gmode = gmode;
     g_ggen.seed(gseed);
@@ -408,18 +460,17 @@ static void run_fa(std::istream& in, const std::string& id)
     std::string eps_s;
     in >> N >> D >> d >> maxiter >> eps_s >> srand_seed;
     double eps = std::strtod(eps_s.c_str(), nullptr);
-    DenseMatrix X;
-    if (!in || N < 0 || D < 0 || N > 100000 || D > 10000 || !read_matrix(in, N, D, X))
+    Pool pool;
+    if (!in || N < 0 || D < 0 || N > 100000 || D > 10000 || !read_pool(in, N, D, pool))
     {
         std::printf("BADINPUT\nEND %s\n", id.c_str());
         return;
     }
-    std::vector<int> data(N);
-    for (int i = 0; i < N; ++i)
-        data[i] = i;
-    log_distance dcb{&X};
-    plain_kernel kcb{&X};
-    plain_features fcb{&X};
+    std::vector<int> data(pool.range);   // the [begin,end) range handed to the library: external sample ids
+    const DenseMatrix X = pool.designated(); // column i = the sample designated by position i of the range
+    log_distance dcb{&pool};
+    plain_kernel kcb{&pool};
+    plain_features fcb{&pool};
     std::srand(srand_seed);
     DenseMatrix A0;
     if (D >= 1 && d >= 1 && D <= 4096 && d <= 4096)
@@ -499,6 +550,35 @@ static void run_rpm(std::istream& in, const std::string& id)
     std::printf("END %s\n", id.c_str());
 }
 
+// ------------------------------------------------------------------------------------------ RPP
+// Replay material for the shipped polar method: the std::rand answers (re-drawn after the same srand) that
+// gaussian_projection_matrix(D, d) consumed, the matrix, and the std::rand answer that follows the call.
+static void run_rpp(std::istream& in, const std::string& id)
+{
+    int D, d;
+    unsigned srand_seed;
+    in >> D >> d >> srand_seed;
+    if (!in || D < 1 || d < 1 || D > 64 || d > 64)
+    {
+        std::printf("BADINPUT\nEND %s\n", id.c_str());
+        return;
+    }
+    std::srand(srand_seed);
+    DenseMatrix P = tapkee_internal::gaussian_projection_matrix(D, d);
+    int next = std::rand();
+    std::srand(srand_seed);
+    const int len = 8 * D * d + 64;
+    std::printf("RANDMAX %lld\nRAND", (long long)RAND_MAX);
+    for (int i = 0; i < len; ++i)
+        std::printf(" %d", std::rand());
+    std::printf("\nNEXT %d\n", next);
+    std::printf("M %d %d", (int)P.rows(), (int)P.cols());
+    for (int r = 0; r < P.rows(); ++r)
+        for (int c = 0; c < P.cols(); ++c)
+            std::printf(" %a", P(r, c));
+    std::printf("\nEND %s\n", id.c_str());
+}
+
 int main()
 {
     std::ios::sync_with_stdio(true);
@@ -520,6 +600,8 @@ int main()
 #endif
         if (cmd == "RPM")
             run_rpm(std::cin, id);
+        else if (cmd == "RPP")
+            run_rpp(std::cin, id);
         else
         {
             std::printf("BADCMD\nEND %s\n", id.c_str());
